@@ -12,6 +12,7 @@ mod checks;
 mod conform;
 mod format;
 mod genr;
+mod glob;
 mod minimise;
 mod report;
 mod rng;
